@@ -25,11 +25,14 @@ Lemma e_step_spec F hdr regs o :
   map fst (fst (e_step F hdr regs o)) = fst (s_step F hdr (map fst regs) o)
   /\ snd (e_step F hdr regs o) = snd (s_step F hdr (map fst regs) o).
 Proof.
-  intros HG. unfold eager_guard in HG. destruct hdr as [|h hdr]; [|discriminate].
+  intros HG. unfold eager_guard in HG. apply andb_true_iff in HG. destruct HG as [HN HG]. apply negb_true_iff in HN.
+  destruct hdr as [|h hdr]; [|discriminate].
   destruct (f_default_hdr F) as [|d ds] eqn:ED; [|discriminate].
   destruct o as [r|r f|r ix|r i|r srcs|r f vals|r|r|r r' ix|r].
+  10:{ simpl. rewrite nth_error_map'. unfold etable in *. destruct (nth_error regs r) as [[t c]|]; simpl; [|split; reflexivity].
+       rewrite HN. split; reflexivity. }
   8:{ simpl. rewrite nth_error_map'. unfold etable in *. destruct (nth_error regs r) as [[t c]|]; simpl; [|split; reflexivity].
-      unfold e_write. simpl. rewrite ED. destruct t, c; split; reflexivity. }
+      unfold e_write. simpl. rewrite ED, HN. destruct t, c; split; reflexivity. }
   all: unfold e_step;
        match goal with |- context [s_step ?FF ?hh ?rr ?op] =>
          pose proof (s_step_length FF hh rr op) as HL;
@@ -76,7 +79,7 @@ Qed.
 (* the eager writer refuses a table read from a file with header lines (VCF) *)
 Definition W_vcf : fmt :=
   {| f_kinds := [KStr; KInt (-1)]; f_layout := LDelim; f_concat := true; f_nowrite := []; f_ragged := true;
-     f_eager_write_fails := true; f_default_hdr := [35; 35; 10]%Z; f_sid := [] |}.
+     f_eager_write_fails := true; f_write_needs_context := false; f_default_hdr := [35; 35; 10]%Z; f_sid := [] |}.
 Definition W_vcfrec : rawrec := {| r_fields := [[99%Z]; [53%Z]]; r_raw := [99; 9; 53; 10]%Z |}.
 Lemma eager_write_fails_refuted :
   exists F hdr recs prog ctx, wf F recs /\
@@ -200,3 +203,26 @@ Proof.
     rewrite Forall_forall in H. simpl. apply print_row_length. apply H. exact Hin.
   - intros hdr. rewrite H1. unfold s_write. rewrite map_map. reflexivity.
 Qed.
+
+(* a writer whose header comes from the table's context (BAM) cannot write ANY derived eager table *)
+Definition W_bam : fmt :=
+  {| f_kinds := [KStr; KInt 0]; f_layout := LDelim; f_concat := false; f_nowrite := []; f_ragged := false;
+     f_eager_write_fails := false; f_write_needs_context := true; f_default_hdr := []; f_sid := [] |}.
+Lemma eager_needs_context_refuted :
+  exists F hdr recs prog ctx, wf F recs /\
+    e_run F hdr [(rows_of_file F recs, ctx); (rows_of_file F recs, ctx)] prog
+    <> s_run F hdr [rows_of_file F recs; rows_of_file F recs] prog.
+Proof.
+  exists W_bam, [], [W_vcfrec], [OIndex 0 (ISlice None None 1%Z); OWriteRead 0], true.
+  split; [split; repeat constructor|]. vm_compute. discriminate.
+Qed.
+(* the BAM scenario of 0f67f4c on the model: fields read before and after writing a selection, a second selection of the
+   same parent written in turn — the lazy run observes what the Spec observes *)
+Lemma bam_write_between_reads :
+  let recs := [W_vcfrec; {| r_fields := [[100%Z]; [55%Z]]; r_raw := [1; 2; 3]%Z |}; {| r_fields := [[101%Z]; [57%Z]]; r_raw := [4; 5]%Z |}] in
+  let prog := [OSel 0 1 (IMask [true; false; true]); OGet 0 0; OWriteRead 0; OGet 0 1; OSel 0 1 (ITake [2; 0; 2]%Z); OWriteRead 0;
+               OGet 0 0; OWriteRead 1; OGet 1 1] in
+  m_guard_fixed_run l_concat W_bam [] (start recs) prog = true
+  /\ m_run l_concat W_bam [] (start recs) prog = s_run W_bam [] [rows_of_file W_bam recs; rows_of_file W_bam recs] prog
+  /\ nth 5 (m_run l_concat W_bam [] (start recs) prog) XErr = XRows [[VS [101%Z]; VI 9]; [VS [99%Z]; VI 5]; [VS [101%Z]; VI 9]].
+Proof. vm_compute. repeat split; reflexivity. Qed.
